@@ -47,7 +47,18 @@ func init() {
 	if os.Getenv("VERIF_DEBUGLOG") != "" {
 		log.SetOutput(os.Stdout) // the daemon's own log lines, for debugging a replay
 	}
-	time.Local = time.UTC
+	// the daemon works in local time (window times, file names); the simulated device sits in a zone that
+	// is not UTC and not on a whole hour, so that "local" and "UTC" can never be confused unnoticed
+	time.Local = time.FixedZone("+1245", zoneOffsetMin*60)
+}
+
+const zoneOffsetMin = 12*60 + 45
+
+// localHHMM: the wall-clock time HH:MM that the local clock shows m minutes after the bubble's epoch
+// (2000-01-01 00:00:00 UTC).
+func localHHMM(m int) string {
+	t := ((zoneOffsetMin+m)%1440 + 1440) % 1440
+	return fmt.Sprintf("%02d:%02d", t/60, t%60)
 }
 
 // bubble runs f in a synctest bubble on a helper goroutine: if the testing package ends the
@@ -284,9 +295,13 @@ func genCfg(r *verifsim.Run, focus string) cCfg {
 		if a == b {
 			b = a + 1
 		}
-		c.WinStart, c.WinStop = fmt.Sprintf("00:%02d", a), fmt.Sprintf("00:%02d", b)
+		c.WinStart, c.WinStop = localHHMM(a), localHHMM(b)
 		if r.Chance(1, 6) {
-			c.WinStart, c.WinStop = "23:59", fmt.Sprintf("00:%02d", 1+r.Draw(2))
+			c.WinStart, c.WinStop = localHHMM(-1), localHHMM(1+r.Draw(2))
+		}
+		if r.Chance(1, 8) {
+			// a window that spans local midnight (the local clock shows 12:45 at the start of the run)
+			c.WinStart, c.WinStop = localHHMM(r.Range(0, 2)), "00:00"
 		}
 		if r.Chance(1, 4) {
 			c.MinDiskMB = 1000000000 // more than any disk has: the real free-space check refuses
@@ -1896,7 +1911,7 @@ func checkThrottledConn(r *verifsim.Run, cn *cConn, cr *cConnResult, recs []refR
 		rc := motionRecs[p0.rec]
 		// a frame reaches storage when it is processed, but not before its file was started (pre-trigger
 		// frames are written at the trigger): the start instant is the timestamp in the file name
-		startT, terr := time.ParseInLocation("20060102.150405.000", strings.TrimSuffix(filepath.Base(f), ".cptv"), time.UTC)
+		startT, terr := time.ParseInLocation("20060102.150405.000", strings.TrimSuffix(filepath.Base(f), ".cptv"), time.Local)
 		if terr != nil {
 			r.Violate("C11", "C11.files", "name", "unexpected file name %s", f)
 			return
@@ -2016,12 +2031,23 @@ func attributeRecordingRules(r *verifsim.Run, sc *cScenario, exp []refRec, act [
 			motionFiles = append(motionFiles, f)
 		}
 	}
+	// ordinal among the accepted frames (bad frames are invisible to the pre-trigger buffer)
+	var accepted []int
+	for id, e := range sent {
+		if e.Kind == 'F' {
+			accepted = append(accepted, id)
+		}
+	}
+	sort.Ints(accepted)
+	ord := map[int]int{}
+	for i, id := range accepted {
+		ord[id] = i
+	}
 	seen := map[int]bool{}
 	for k, f := range motionFiles {
 		for i, id := range f {
-			if i > 0 && id != f[i-1]+1 && sent[id] != nil {
-				// ids are consecutive per delivered frame; bad frames leave holes only at recording ends
-				r.Violate("C01", "C01.order", "file:gap", "finished file %d holds frame id %d after %d", k, id, f[i-1])
+			if i > 0 && ord[id] != ord[f[i-1]]+1 {
+				r.Violate("C01", "C01.order", "file:gap", "finished file %d holds frame id %d after %d (not consecutive accepted frames)", k, id, f[i-1])
 				return
 			}
 			if seen[id] {
